@@ -40,6 +40,7 @@ def _cases(draw, tier):
             max_total=36 if big else 25,
             zero_ok=filters is None,
             benchmarks=("ft06", "la01") if big else ("ft06",),
+            big_ok=True,
         )
     )
     return {"inst": inst, "filters": filters, "history": draw(gen.histories())}
@@ -56,7 +57,18 @@ def check_case(case, ctx):
     d, m = drv.dispatcher, drv.model
     n = m.n_ops
 
-    def observe(where):
+    def observe(where, pre=0):
+        if pre:
+            # a client asks for the earliest start of some ready operations
+            # before reading the clock
+            ready = m.ready()
+            sub = [op for i, op in enumerate(ready) if (pre >> i) & 1]
+            got = d.min_start_time([drv.op(j, p) for (j, p) in sub])
+            ctx.check(
+                got == m.min_start(sub),
+                "min_start_time",
+                f"{where}: min_start_time({sub}) = {got}, expected {m.min_start(sub)}",
+            )
         now = d.current_time()
         done = {fp.jp(o) for o in d.completed_operations()}
         avail = m.available(filters)
@@ -94,7 +106,7 @@ def check_case(case, ctx):
         if twin is not None:
             twin.dispatch(j, p, mm)
         where = f"after dispatch {k} of ({j},{p}) on {mm}"
-        now2, done2 = observe(where)
+        now2, done2 = observe(where, pre=(a * 7 + b) % 8 if (a + b) % 3 == 0 else 0)
         ctx.check(now2 >= now, "clock-decreased", f"{where}: {now} -> {now2}")
         ctx.check(
             done <= done2,
